@@ -382,7 +382,7 @@ def doLine (line : String) : M String := do
     match i.toNat?, parseRat rate with
     | some i, some rate =>
       let g ← get
-      let c := Clock.init (Tempo.new rate g.now)
+      let c := Clock.init (Tempo.new rate g.now) true
       let tempos := if g.tempos.size ≤ i then g.tempos ++ Array.replicate (i + 1 - g.tempos.size) none else g.tempos
       let seen := if g.seen.size ≤ i + 2 then g.seen ++ Array.replicate (i + 3 - g.seen.size) 0 else g.seen
       set { g with tempos := tempos.setIfInBounds i (some c), order := g.order ++ [CK.tempo i],
